@@ -174,11 +174,11 @@ class PassHarness(Harness):
                 for nm in what.split("+"):
                     get_pass(nm).run(m2)
         except CompilerError as e:
-            status, detail = "compiler-error", str(e)[:100]
+            status, detail = "compiler-error", ""
         except (core.Abort, core.PathCut, core.EngineError):
             raise
         except Exception as e:
-            status, detail = "internal-error", f"{type(e).__name__}: {e}"[:160]
+            status, detail = "internal-error", type(e).__name__
         wf = []
         if status == "ok":
             try:
@@ -186,7 +186,7 @@ class PassHarness(Harness):
             except (core.Abort, core.PathCut, core.EngineError):
                 raise
             except Exception as e:
-                wf.append(f"verify_module: {type(e).__name__}: {e}"[:160])
+                wf.append(f"verify_module: {type(e).__name__}")
             wf += structural_check(m2)[:3]
         res = dict(status=status, detail=detail, wellformed=not wf, problems=wf)
         if status == "ok" and not wf:
